@@ -614,8 +614,8 @@ void read_interpolation_filter(Bitstrm *bs, FrameHeader *frame_info) {
 }
 
 // Read Tile information
-void read_tile_info(Bitstrm *bs, TilesInfo *tile_info, SeqHeader *seq_header,
-                    FrameHeader *frame_info) {
+EbErrorType read_tile_info(Bitstrm *bs, TilesInfo *tile_info, SeqHeader *seq_header,
+                           FrameHeader *frame_info) {
     int start_sb, i;
     int sb_cols          = seq_header->use_128x128_superblock ? ((frame_info->mi_cols + 31) >> 5)
                                                               : ((frame_info->mi_cols + 15) >> 4);
@@ -648,6 +648,8 @@ void read_tile_info(Bitstrm *bs, TilesInfo *tile_info, SeqHeader *seq_header,
         assert(tile_width_sb <= tile_info->max_tile_width_sb); // Bitstream conformance
         i = 0;
         for (start_sb = 0; start_sb < sb_cols; start_sb += tile_width_sb) {
+            if (i >= MAX_TILE_COLS)
+                return EB_Corrupt_Frame;
             tile_info->tile_col_start_mi[i] = start_sb << sb_shift;
             i += 1;
         }
@@ -669,6 +671,8 @@ void read_tile_info(Bitstrm *bs, TilesInfo *tile_info, SeqHeader *seq_header,
         assert(tile_height_sb <= tile_info->max_tile_height_sb); // Bitstream conformance
         i = 0;
         for (start_sb = 0; start_sb < sb_rows; start_sb += tile_height_sb) {
+            if (i >= MAX_TILE_ROWS)
+                return EB_Corrupt_Frame;
             tile_info->tile_row_start_mi[i] = start_sb << sb_shift;
             i += 1;
         }
@@ -678,6 +682,8 @@ void read_tile_info(Bitstrm *bs, TilesInfo *tile_info, SeqHeader *seq_header,
         int widest_tile_sb = 0;
         start_sb           = 0;
         for (i = 0; start_sb < sb_cols; i++) {
+            if (i >= MAX_TILE_COLS)
+                return EB_Corrupt_Frame;
             tile_info->tile_col_start_mi[i] = start_sb << sb_shift;
             int      max_width              = MIN(sb_cols - start_sb, tile_info->max_tile_width_sb);
             uint32_t width_in_sbs_minus_1   = dec_get_bits_ns(bs, max_width);
@@ -700,6 +706,8 @@ void read_tile_info(Bitstrm *bs, TilesInfo *tile_info, SeqHeader *seq_header,
 
         start_sb = 0;
         for (i = 0; start_sb < sb_rows; i++) {
+            if (i >= MAX_TILE_ROWS)
+                return EB_Corrupt_Frame;
             tile_info->tile_row_start_mi[i] = start_sb << sb_shift;
             int      max_height            = MIN(sb_rows - start_sb, tile_info->max_tile_height_sb);
             uint32_t height_in_sbs_minus_1 = dec_get_bits_ns(bs, max_height);
@@ -725,7 +733,9 @@ void read_tile_info(Bitstrm *bs, TilesInfo *tile_info, SeqHeader *seq_header,
         PRINT("tile_size_bytes", tile_info->tile_size_bytes)
     } else
         tile_info->context_update_tile_id = 0;
-    assert(tile_info->context_update_tile_id < (tile_info->tile_cols * tile_info->tile_rows));
+    if (tile_info->context_update_tile_id >= (tile_info->tile_cols * tile_info->tile_rows))
+        return EB_Corrupt_Frame;
+    return EB_ErrorNone;
 }
 
 uint8_t read_delta_q(Bitstrm *bs) {
@@ -2094,7 +2104,8 @@ EbErrorType read_uncompressed_header(Bitstrm *bs, EbDecHandle *dec_handle_ptr,
 
     generate_next_ref_frame_map(dec_handle_ptr);
 
-    read_tile_info(bs, &frame_info->tiles_info, seq_header, frame_info);
+    if (read_tile_info(bs, &frame_info->tiles_info, seq_header, frame_info) != EB_ErrorNone)
+        return EB_Corrupt_Frame;
     read_quantization_params(
         bs, &frame_info->quantization_params, &seq_header->color_config, num_planes);
     read_segmentation_params(bs, dec_handle_ptr, frame_info);
